@@ -23,6 +23,10 @@ func run(c *hc.Ctx) {
 	pool := []*canvas.Path{}
 	if c.Only == "" || c.Only == "regress" {
 		regress(c)
+		if regressHung {
+			c.Count("run:aborted-after-regression-hang")
+			return
+		}
 	}
 	if c.Only == "" || c.Only == "corr" {
 		pool = corr(c)
